@@ -474,6 +474,12 @@ var checkC19EngineSeq = def("C19/engineseq", func(c engineSeqCase) error {
 				return fmt.Errorf("op %d: after Reset(%q) the engine reports %q, the string describes %q", i, text, e.Position(), want)
 			}
 			st, perr := oracle.ParseFEN(e.Position())
+			if perr == nil && wellFormed(&st.Pos) && st.Pos.InCheck(!st.Pos.White) {
+				// accepted although the side that has just moved is in check: from here a king can be
+				// captured, and what "legal move" means is anybody's guess. The case ends here.
+				stats.Case("C19/engineseq", stats.FP(c.FEN, fmt.Sprint(c.Ops)), true, append(dedup(labels), "reset-accepted-with-the-opponent-in-check")...)
+				return nil
+			}
 			if perr != nil || !wellFormed(&st.Pos) {
 				// accepted, but not a position the rules model can follow (no king, rights without the rook at home, ...): the case ends here
 				stats.Case("C19/engineseq", stats.FP(c.FEN, fmt.Sprint(c.Ops)), true, append(dedup(labels), "reset-accepted-unmodelled")...)
@@ -481,9 +487,6 @@ var checkC19EngineSeq = def("C19/engineseq", func(c engineSeqCase) error {
 			}
 			g = oracle.NewGame(st)
 			labels = append(labels, "reset-accepted")
-			if st.Pos.InCheck(!st.Pos.White) {
-				labels = append(labels, "reset-accepted-with-the-opponent-in-check")
-			}
 			lastRejected = false
 			continue
 		}
